@@ -12,7 +12,19 @@ TRUSTED = [
     "Go toolchain, runtime, unicode tables (passed to the model through the stream header / case lines)",
 ]
 
-ERR_RE = re.compile(r"^(?:[^\n]*?:)?\d+:\d+ \(\d+\)(?:: rule [^\n]+?)?: ", re.S)
+ERR_RE = re.compile(r"^\d+:\d+ \(\d+\)(?:: rule [^\n]+?)?: ", re.S)
+POS_RE = re.compile(r"^(\d+):(\d+) \((\d+)\)", re.S)
+
+
+def strip_file(c, e):
+    """an error message without its file-name prefix; None when the (non-empty) file name of the case is not there.
+    The name is arbitrary data (it may itself look like a position), so it is removed literally, never parsed."""
+    fn = c["filename"]
+    if not fn:
+        return e
+    fn = fn if isinstance(fn, str) else fn.decode("utf-8", "replace")
+    return e[len(fn) + 1:] if e.startswith(fn + ":") else None
+
 
 # ----------------------------------------------------------------------------- oracles
 # an oracle takes (case_line, impl_result) and yields ("viol", text) or ("known", id, text)
@@ -71,12 +83,12 @@ def orc_c11(cl, r):
     if len(set(errs)) != len(errs):
         yield ("viol", "duplicate message in the returned error list")
     for e in errs:
-        m = ERR_RE.match(e)
-        if not m:
-            yield ("viol", "error without position prefix: %r" % e[:120])
-            continue
-        if c["filename"] and not e.startswith(c["filename"] + ":"):
+        rest = strip_file(c, e)
+        if rest is None:
             yield ("viol", "error not prefixed with the file name: %r" % e[:120])
+            continue
+        if not ERR_RE.match(rest):
+            yield ("viol", "error without position prefix: %r" % e[:120])
 
 
 def listjoin(l):
@@ -146,7 +158,7 @@ def orc_c17(cl, r):
     if inv:
         tab = core.pos_table(inp)
         for e in inv:
-            m = re.match(r"^(?:[^\n]*?:)?(\d+):(\d+) \((\d+)\)", e, re.S)
+            m = POS_RE.match(strip_file(c, e) or "")
             if not m:
                 continue
             l, col, off = int(m.group(1)), int(m.group(2)), int(m.group(3))
